@@ -61,7 +61,7 @@ def c20_fa(t: T9, m: int, starts: int, finals: int, l0: int, l1: int, s0: int, s
     """
     pre: pinned(m=m, starts=starts, finals=finals, l0=l0, l1=l1, s0=s0, s1=s1)
     pre: ((0 <= m) & (m <= 3)) & ((0 <= starts) & (starts < 4)) & ((0 <= finals) & (finals < 4))
-    pre: THOROUGH or ((s0 == 0 or s0 == 8) and (s1 == 2 or s1 == 3 or s1 == 4 or s1 == 9))
+    pre: ((s0 == 0) | (s0 == 8)) & ((s1 == 2) | (s1 == 3) | (s1 == 4) | (s1 == 9))
     pre: ((0 <= l0) & (l0 < NSTATE)) & ((0 <= l1) & (l1 < NSTATE)) & (l0 != l1) & ((0 <= s0) & (s0 < NSYM)) & ((0 <= s1) & (s1 < NSYM)) & (s0 != s1)
     pre: enc.sparse_ranges(t, 2, 2)
     pre: sparse_canonical(t, m)
@@ -126,7 +126,7 @@ def c20_pda(t: T10, m: int, finals: int, sl: int, kl: int, il: int) -> bool:
     pre: pinned(m=m, finals=finals, sl=sl, kl=kl, il=il, f0=t[0], c0=t[4])
     pre: ((0 <= m) & (m <= 2)) & ((0 <= finals) & (finals < 4)) & ((0 <= sl) & (sl < 5)) & ((0 <= kl) & (kl < 4)) & ((0 <= il) & (il < 3))
     pre: pda_canonical(t, m, 2, 2)
-    pre: THOROUGH or m < 2 or ((t[5] == t[0]) & (t[6] == t[1]))
+    pre: (m < 2) | ((t[5] == t[0]) & (t[6] == t[1]))
     post: _
     """
     raw = (t, m, finals, sl, kl, il)
@@ -321,14 +321,15 @@ def c20_rsa(b0: Tuple[int, int, int], n0: int, b1: Tuple[int, int, int], n1: int
 def _sh_fa(tier):
     if tier == "quick":
         return product_pins(m=[2], starts=[3], finals=[2], l0=[0, 3], l1=[2, 4, 6])
-    return product_pins(m=[1, 2, 3], l0=[0, 2, 3, 7, 8], l1=[1, 2, 4, 5, 6, 9])
+    return product_pins(m=[1, 2], starts=[3], finals=[2], l0=[0, 2, 3, 7, 8], l1=[1, 2, 4, 5, 6, 9])
 
 
 def _sh_pda(tier):
     if tier == "quick":
         return [dict(m=2, finals=2, sl=a, kl=b, il=c, f0=0, c0=d) for (a, b, c) in ((0, 0, 0), (1, 1, 1), (2, 2, 0))
                 for d in (0, 3, 4)] + [dict(m=1, finals=2, sl=3, kl=3, il=2), dict(m=1, finals=2, sl=4, kl=1, il=1)]
-    return product_pins(m=[1, 2], sl=[0, 1, 2, 3, 4], kl=[0, 1, 2, 3], il=[0, 1, 2])
+    return product_pins(m=[2], finals=[2], sl=[0, 1, 2, 3, 4], kl=[0, 1, 2], il=[0, 1, 2], f0=[0], c0=[0, 3, 4]) + \
+        product_pins(m=[1], finals=[2], sl=[0, 1, 2, 3, 4], kl=[0, 1, 2, 3], il=[0, 1, 2])
 
 
 def _sh_text(tier):
